@@ -112,7 +112,7 @@ def generate(rng, tier, index):
     alt = rng.choice([b for b in [1, 2, 3, 5, 1000] if b != batch])
     mode = rng.choice(["observe", "observe", "observe", "hold", "hold", "plain"])
     holding = False
-    holder_kind = rng.choice(["raw", "reader"])
+    holder_kind = rng.choice(["raw", "reader", "write"])
 
     def desc_key(n, fields):
         k = "%s|%s" % (n, ",".join(fields))
@@ -160,6 +160,8 @@ def generate(rng, tier, index):
                 ops.append({"op": "touch"})  # other code looks at the descriptors (identifier, repr, equality) in between
             elif mode == "hold" and r < 0.80:
                 if not holding:
+                    if holder_kind == "write" and rng.random() < 0.6:
+                        ops.append({"op": "flush"})  # a competing writer gets the lock only while nothing is pending
                     ops.append({"op": "hold", "kind": holder_kind})
                     holding = True
                 else:
@@ -230,6 +232,7 @@ class Workload:
         self.columns = collections.OrderedDict()
         self.closed = False
         self.refused = 0
+        self.clean_refused = 0  # INSERTs refused while another connection held the write lock: nothing stored, caller told
         self.skipped_obs = 0
 
     def add(self, v):
@@ -316,11 +319,25 @@ class Workload:
         dkey = (name, fields)
         new_desc = dkey not in self.seen
         before = len(self.rows)
+        write_locked = self.holder is not None and self.holder[0] == "write"
+        if write_locked and new_desc:
+            # a new type needs DDL; what a writer owes its caller when DDL is refused is not part of the property
+            self.w.log(self.tag, "write", op["desc"], "-> skipped (new type while a competing writer holds the lock)")
+            self.clean_refused += 1  # not performed: the second batch size would not be comparable
+            return
         try:
             self.writer.write(rec)
             ok = True
             self.w.log(self.tag, "write", op["desc"], "-> ok")
         except sqlite3.OperationalError as e:
+            if write_locked and "locked" in str(e):
+                # the INSERT itself was refused (the other connection holds RESERVED): the statement stored nothing,
+                # no commit was attempted, the caller was told.  The record is simply not written; batches go on
+                # being counted in records that were.
+                self.clean_refused += 1
+                self.w.probe("insert-refused-by-write-lock")
+                self.w.log(self.tag, "write", op["desc"], "-> OperationalError (insert refused, nothing stored)")
+                return
             ok = False
             self.busy = True
             self.w.log(self.tag, "write", op["desc"], "-> OperationalError")
@@ -543,6 +560,17 @@ class Workload:
                 return
             self.holder = ("reader", rd, it)
             self.w.probe("holder-is-sqlitereader")
+        elif kind == "write":
+            # a competing writer: BEGIN IMMEDIATE succeeds only while our writer has nothing pending
+            con = sqlite3.connect(self.path, timeout=0, isolation_level=None)
+            try:
+                con.execute("BEGIN IMMEDIATE")
+            except sqlite3.OperationalError:
+                con.close()
+                self.w.log(self.tag, "hold", kind, "-> refused (writer has pending rows)")
+                return
+            self.holder = ("write", con, None)
+            self.w.probe("holder-is-competing-writer")
         else:
             con = sqlite3.connect(self.path, timeout=0, isolation_level=None)
             try:
@@ -694,7 +722,7 @@ def execute(plan, keep_log=False):
             a.run()
             viols += a.viols
             evals = 1
-            if not a.busy and a.closed and hasattr(a, "final_content"):
+            if not a.busy and not a.clean_refused and a.closed and hasattr(a, "final_content"):
                 b = Workload(w, plan, plan["alt_batch"], scratch, "B", looks=False)
                 b.run()
                 evals += 1
